@@ -155,11 +155,33 @@ pub struct Keys {
     pub pk_s: Vec<u8>,
 }
 
+/// Reference DeriveKeyPair with a small process-wide memo (sweeps and fuzz inputs reuse ikm values;
+/// the result is a pure function of (kem, ikm), so caching cannot change any verdict)
+pub fn ref_keypair(kem: KemId, ikm: &[u8]) -> (Vec<u8>, Vec<u8>) {
+    use std::collections::HashMap;
+    use std::sync::{Mutex, OnceLock};
+    static MEMO: OnceLock<Mutex<HashMap<(KemId, Vec<u8>), (Vec<u8>, Vec<u8>)>>> = OnceLock::new();
+    let m = MEMO.get_or_init(|| Mutex::new(HashMap::new()));
+    if ikm.len() <= 80 {
+        if let Some(v) = m.lock().unwrap().get(&(kem, ikm.to_vec())) {
+            return v.clone();
+        }
+    }
+    let v = r::derive_key_pair(kem, ikm);
+    if ikm.len() <= 80 {
+        let mut g = m.lock().unwrap();
+        if g.len() < 8192 {
+            g.insert((kem, ikm.to_vec()), v.clone());
+        }
+    }
+    v
+}
+
 impl Session {
     pub fn keys(&self) -> Keys {
-        let (sk_r, pk_r) = r::derive_key_pair(self.suite.kem, &self.ikm_r);
+        let (sk_r, pk_r) = ref_keypair(self.suite.kem, &self.ikm_r);
         let (sk_s, pk_s) = if self.mode & 2 != 0 {
-            r::derive_key_pair(self.suite.kem, &self.ikm_s)
+            ref_keypair(self.suite.kem, &self.ikm_s)
         } else {
             (vec![], vec![])
         };
